@@ -33,6 +33,7 @@ def must_see(tier):
     for impl in ('c', 'py'):
         m[impl + ':stored:sweep'] = 300
         m[impl + ':read-dependency-refused'] = 20
+        m[impl + ':load-refused'] = 20
     return m
 
 
